@@ -32,6 +32,24 @@ class UnitsStub:
         def __pow__(self, n): return UnitsStub._U({k: v * n for k, v in self.e.items()})
         def key(self): return tuple(sorted((k, v) for k, v in self.e.items() if v))
 
+    PINT_NAMES = {"kilogram": "kg", "kilometer": "km", "second": "s", "rydberg": "rydberg", "Ry": "rydberg"}
+
+    @staticmethod
+    def of(u):
+        """a stub unit, or a real pint unit (e.g. a module-level constant built at import time, before the stub was installed)
+        translated by its base-unit exponents"""
+        if isinstance(u, UnitsStub._U):
+            return u
+        items = getattr(u, "_units", None)
+        if items is None:
+            raise core.OutsideSubset("unit object %r" % (u,))
+        e = {}
+        for k, v in dict(items).items():
+            if k not in UnitsStub.PINT_NAMES or int(v) != v:
+                raise core.OutsideSubset("pint unit %r is not part of the contract" % (u,))
+            e[UnitsStub.PINT_NAMES[k]] = int(v)
+        return UnitsStub._U(e)
+
     def __init__(self):
         for n in ("rydberg", "kg", "km", "s"):
             setattr(self, n, UnitsStub._U({n: 1}))
@@ -41,9 +59,10 @@ class UnitsStub:
 
         class Q:
             def to(self, u2):
-                if unit.key() == (("rydberg", 1),) and u2.key() == (("kg", 1), ("km", 2), ("s", -2)):
+                u1, u2 = UnitsStub.of(unit), UnitsStub.of(u2)
+                if u1.key() == (("rydberg", 1),) and u2.key() == (("kg", 1), ("km", 2), ("s", -2)):
                     return types.SimpleNamespace(magnitude=value * Sc(RY_KGKM2))
-                raise core.OutsideSubset("unit conversion %s -> %s is not part of the contract" % (unit.key(), u2.key()))
+                raise core.OutsideSubset("unit conversion %s -> %s is not part of the contract" % (u1.key(), u2.key()))
         return Q()
 
 
@@ -275,7 +294,8 @@ def run(s):
             nz = symnp.SumNormalizer(facts, tier)
             return nz.decide(goal, nz.facts(goal), name)
         return ob
-    with patched(cal, scipy=types.SimpleNamespace(constants=types.SimpleNamespace(physical_constants={"Avogadro constant": (Sc(NA_CONST), "", 0)}))):
+    with patched(cal, scipy=types.SimpleNamespace(constants=types.SimpleNamespace(physical_constants={"Avogadro constant": (Sc(NA_CONST), "mol^-1", 0)},
+                                                                                  Avogadro=Sc(NA_CONST), N_A=Sc(NA_CONST)))):
         s.oblige("C07.secondary_velocities", velocity("secondary_velocities", lambda t, v: GVRH.elem((t, v))), [VB + "secondary_velocities", VB + "mass"])
         s.oblige("C07.primary_velocities", velocity("primary_velocities", lambda t, v: KVRH.elem((t, v)) + 4 * GVRH.elem((t, v)) / 3),
                  [VB + "primary_velocities", VB + "mass"])
